@@ -146,9 +146,44 @@ def _rebuild(node, keys, names):
     return node
 
 
-def subst_eval(expr: ast.AST, mapping: Dict[str, object], env: Optional[dict] = None):
+STR_METHODS = {"startswith", "endswith", "rstrip", "lstrip", "strip", "count", "find", "rfind", "replace", "isdigit", "splitlines",
+               "rsplit", "partition", "rpartition", "index", "capitalize", "title", "isalnum", "isalpha"}
+
+
+def _fold(node, env, funcs):
+    """Copy of ``node`` in which calls of pure str/bytes methods (STR_METHODS) and of the named pure
+    functions in ``funcs`` whose receiver/arguments are evaluable are replaced by their value."""
+    if isinstance(node, list):
+        return [_fold(x, env, funcs) for x in node]
+    if not isinstance(node, ast.AST):
+        return node
+    new = node.__class__()
+    for f in node._fields:
+        if hasattr(node, f):
+            setattr(new, f, _fold(getattr(node, f), env, funcs))
+    if isinstance(new, ast.Call) and not new.keywords:
+        try:
+            callee = dotted(node.func)
+            if callee is not None and callee in funcs:
+                args = [const_eval(a, env) for a in new.args]
+                return ast.Constant(value=funcs[callee](*args))
+            if isinstance(new.func, ast.Attribute) and new.func.attr in STR_METHODS:
+                recv = const_eval(new.func.value, env)
+                if isinstance(recv, (str, bytes)):
+                    args = [const_eval(a, env) for a in new.args]
+                    return ast.Constant(value=getattr(recv, new.func.attr)(*args))
+        except NotConst:
+            pass
+        except Exception as ex:  # e.g. TypeError mixing str/bytes: the repository expression itself would raise
+            raise NotConst(f"{type(ex).__name__}: {ex}")
+    return new
+
+
+def subst_eval(expr: ast.AST, mapping: Dict[str, object], env: Optional[dict] = None, funcs: Optional[dict] = None):
     """Evaluate a pure expression after replacing every sub-expression whose normalised text is
-    a key of ``mapping`` by that value (finite-domain evaluation of repository expressions)."""
+    a key of ``mapping`` by that value (finite-domain evaluation of repository expressions).
+    Pure string methods and the callables in ``funcs`` (dotted callee text -> python function, the
+    model of that callee) are folded when the plain whitelisted evaluator does not know them."""
     key = (id(expr), frozenset(mapping))
     hit = _SUBST_CACHE.get(key)
     if hit is None or hit[0] is not expr:
@@ -160,7 +195,10 @@ def subst_eval(expr: ast.AST, mapping: Dict[str, object], env: Optional[dict] = 
     full = dict(env or {})
     for s, nm in names.items():
         full[nm] = mapping[s]
-    return const_eval(e2, full)
+    try:
+        return const_eval(e2, full)
+    except NotConst:
+        return const_eval(_fold(e2, full, funcs or {}), full)
 
 
 def handler_names(h: ast.ExceptHandler) -> List[str]:
@@ -256,7 +294,7 @@ class InterpError(Exception):
     pass
 
 
-def interpret(func, args: Dict[str, object], mapping: Optional[Dict[str, object]] = None, max_steps: int = 10000):
+def interpret(func, args: Dict[str, object], mapping: Optional[Dict[str, object]] = None, max_steps: int = 10000, funcs: Optional[dict] = None):
     """Finite-domain evaluation of a *pure, loop-free* repository function with the whitelisted
     evaluator: statements Assign / AugAssign / If / Return / Raise / Pass / docstring over names,
     with the expressions listed in ``mapping`` (normalised text -> value, e.g. ``self.getFileSize()``)
@@ -268,7 +306,7 @@ def interpret(func, args: Dict[str, object], mapping: Optional[Dict[str, object]
 
     def ev(e):
         try:
-            return subst_eval(e, mapping, env)
+            return subst_eval(e, mapping, env, funcs)
         except NotConst as ex:
             raise InterpError(f"not evaluable: {src(e)} ({ex})")
 
@@ -304,7 +342,7 @@ def interpret(func, args: Dict[str, object], mapping: Optional[Dict[str, object]
             elif isinstance(st, ast.AugAssign) and isinstance(st.target, ast.Name):
                 cur = ast.BinOp(left=ast.Name(id=st.target.id, ctx=ast.Load()), op=st.op, right=st.value)
                 try:
-                    env[st.target.id] = subst_eval(cur, mapping, env)
+                    env[st.target.id] = subst_eval(cur, mapping, env, funcs)
                 except NotConst as ex:
                     raise InterpError(f"not evaluable: {src(st)} ({ex})")
             elif isinstance(st, ast.If):
